@@ -320,7 +320,10 @@ class RedshiftBinningFactory:
             comov_edges = comov_edges * units.Mpc
 
         edges = z_at_value(self.cosmology.comoving_distance, comov_edges)
-        return Binning(edges.value, closed=closed)
+        edges = np.array(edges.value)
+        edges[0] = min  # the inversion is only accurate to numerical precision
+        edges[-1] = max
+        return Binning(edges, closed=closed)
 
     def logspace(
         self,
@@ -333,6 +336,8 @@ class RedshiftBinningFactory:
         """Creates a binning linear in 1+ln(z) between a min and max redshift."""
         log_min, log_max = np.log([1.0 + min, 1.0 + max])
         edges = np.logspace(log_min, log_max, num_bins + 1, base=np.e) - 1.0
+        edges[0] = min  # avoid rounding errors from log/exp
+        edges[-1] = max
         return Binning(edges, closed=closed)
 
     def get_method(
